@@ -586,7 +586,14 @@ def evaluate(ctx, cases, label="run"):
             if op["all"] and (m_count is None or m_count > CAP_ENUM):
                 res.skip("all_solutions:too-many-to-enumerate")
                 continue
-            out, log = spy_call(gc.vertex_color, np.array(edges, dtype=int), limit=lim, n_colors=op["n"], all_solutions=op["all"])
+            # the adjacency's dtype / container is not part of its value: narrow, unsigned and list forms must behave alike
+            nvv = (max(max(e) for e in edges) + 1) if len(edges) else 0
+            forms = [int, np.int32, "list"] + ([np.int16] if nvv < 30000 else []) + ([np.int8, np.uint8] if nvv < 120 else [])
+            form = forms[(len(edges) * 7 + nvv + op["n"]) % len(forms)]
+            adj_arg = [list(map(int, e)) for e in edges] if form == "list" else np.array(edges, dtype=form).reshape(-1, 2)
+            res.extra.setdefault("vertex_color_adjacency_forms", {})
+            res.extra["vertex_color_adjacency_forms"][str(form)] = res.extra["vertex_color_adjacency_forms"].get(str(form), 0) + 1
+            out, log = spy_call(gc.vertex_color, adj_arg, limit=lim, n_colors=op["n"], all_solutions=op["all"])
         elif f == "dm":
             if op["ns"] is None and (m_count is None or m_count > CAP_ENUM):
                 res.skip("all_solutions:too-many-to-enumerate")
